@@ -4,6 +4,7 @@
    the theorems cover every point at which rendering can fail and every chunking. *)
 From Coq Require Import String.
 From Verif Require Import Bytes Textproto SendErr RefServer SmtpSend SmtpSendGen.
+From VerifProofs Require SmtpSendRenderProofs.
 From VerifProofs Require Import TextprotoProofs SmtpSendProofs SmtpSendGenProofs SmtpSendCorollaries SmtpSendRefuted.
 
 Theorem C03_source_expect_codes : gen_expects = std_expects.
@@ -85,6 +86,32 @@ Theorem C03_dot_chunk_independent : forall chunks : list bytes,
   dot_encode chunks = dot_encode [concat chunks].
 Proof. exact dot_encode_chunk_independent. Qed.
 Print Assumptions C03_dot_chunk_independent.
+
+(* Cross-engine composition: the renderer instantiated with the byte-core model of Msg.WriteTo (Writer.v,
+   render_writer: the k-th Writer message is rendered into an unlimited destination; Date / Message-ID / boundary
+   oracles per message).  Every commit then carries the dot-canonical form of the PURE rendering
+   (Render.render_pure of the resolved message, the object of C01/C10/C18) of one message of the batch whose
+   producers do not fail; a message with a failing body / file producer is never delivered and never committed. *)
+Theorem C03_commit_is_pure_render : forall wms date msgid rb (F : fixes), dialogue_repaired F ->
+  forall cfg caps caps_tls script ms, SmtpSendRenderProofs.boundaries_ok wms date msgid rb ->
+  let o := run_case std_expects F cfg caps caps_tls script ms (SmtpSendRenderProofs.render_writer wms date msgid rb) in
+  Forall (fun c => exists m from wm,
+            In m ms /\ m_from m = Some from /\ nth_error wms (m_id m) = Some wm /\
+            WriterProofs.msg_has_failing_producer wm = false /\
+            c = mkCommit from (m_rcpts m) (dotcanon (SmtpSendRenderProofs.pure_of date msgid rb (m_id m) wm)))
+         (w_commits (o_world o)).
+Proof. exact SmtpSendRenderProofs.commit_is_pure_render. Qed.
+Print Assumptions C03_commit_is_pure_render.
+
+Theorem C03_failing_producer_never_committed : forall wms date msgid rb (F : fixes), dialogue_repaired F ->
+  forall cfg caps caps_tls script ms,
+  let o := run_case std_expects F cfg caps caps_tls script ms (SmtpSendRenderProofs.render_writer wms date msgid rb) in
+  Forall2 (fun m r => forall wm, nth_error wms (m_id m) = Some wm ->
+             WriterProofs.msg_has_failing_producer wm = true ->
+             r_delivered r = false /\ acked r = false)
+          ms (o_results o).
+Proof. exact SmtpSendRenderProofs.failing_producer_never_committed. Qed.
+Print Assumptions C03_failing_producer_never_committed.
 
 (* the original code commits a fragment and tells nobody: witness, replayed on the real code in corpus/C03.txt *)
 Theorem C03_partial_commit_before_fix_refuted :
